@@ -1,15 +1,12 @@
 (* Properties/C13.v — pure functions: inputs untouched.  Statements only.
    In the models a function that could write through its argument returns the argument as it is after
-   the call; these frame theorems say it is unchanged.  They are immediate for the repaired code (the
-   printer sorts a clone, F6) — their weight lies in the correspondence, which compares the
-   argument-after-call observable of the implementation with the model on every call.  History
+   the call; these frame theorems say it is unchanged.  It is immediate for the repaired code (the
+   printer sorts a clone, F6) — its weight lies in the correspondence, which compares the
+   argument-after-call observable of the implementation with the model on every call (printer, both
+   graph builders, merge; the other models are functions of immutable values and have no such output).  History
    independence and data-race freedom are not theorems (DESIGN.md: partial by nature). *)
-From Verif Require Import Base.Str Base.Outcome Model.Ast Model.Printer Model.WGraph Model.PGraph Model.Merge.
+From Verif Require Import Base.Str Base.Outcome Model.Ast Model.Printer.
 
 Theorem C13_printer_frame : forall b m, snd (print_model b m) = m_types m.
 Proof. intros b m. reflexivity. Qed.
 
-(* the builders and the merge are functions of immutable values: they have no way to return a changed input;
-   stated for completeness as equalities of the inputs before and after *)
-Theorem C13_builders_frame : forall m : model, (fun _ => m) (wbuild m) = m /\ (fun _ => m) (pbuild m) = m.
-Proof. intros; split; reflexivity. Qed.
